@@ -223,6 +223,37 @@ func main() {
 		}
 		doCmp(a, x, y)
 	}
+	// 5. DistanceCmp / Closer with controlled common-prefix lengths: x and y first differ from a
+	//    at bits px and py (swept, |px-py| <= 1, across the MaxPO/ExtendedPO boundaries), random or equal tails
+	flip := func(b []byte, bit int) {
+		if bit >= 0 && bit < 8*len(b) {
+			b[bit/8] ^= 0x80 >> uint(bit%8)
+		}
+	}
+	for px := 0; px < 48; px++ {
+		for _, py := range []int{px - 1, px, px + 1, px + 4, 300} {
+			for rep := 0; rep < run.N(1, 4); rep++ {
+				a := r.Bytes(32)
+				x := append([]byte{}, a...)
+				y := append([]byte{}, a...)
+				flip(x, px)
+				flip(y, py)
+				tail := r.Bytes(32)
+				for k := 0; k < 8*32; k++ {
+					if tail[k/8]&(0x80>>uint(k%8)) == 0 {
+						continue
+					}
+					if k > px && (rep%2 == 0 || r.Bool()) {
+						flip(x, k)
+					}
+					if k > py && k > px && (rep%2 == 0 || r.Bool()) { // rep even: equal tails beyond both bits
+						flip(y, k)
+					}
+				}
+				doCmp(a, x, y)
+			}
+		}
+	}
 	run.Finish()
 }
 
